@@ -94,6 +94,13 @@ def unusual(rng, sc):
         ({"numpy_bool": sc["early"]} if raw == "numpy" else ("yes" if sc["early"] else None))
     sc["np_times"] = rng.random() < 0.25
     sc["est_dep"] = rng.random() < 0.25
+    # the network is written to JSON and loaded back BEFORE any EV arrives (legitimate: queue empty, counters 0; the flag
+    # early_departure does not survive a round trip - open finding owned by C09 - so only with early_departure off)
+    if not sc["early"] and rng.random() < 0.35:
+        sc["json_net"] = True
+        sc["early_raw"] = False
+        if sc.get("ids") in ("int0", "mixed"):
+            sc["ids"] = "empty"          # JSON object keys are strings: integer station ids come back as "0", "1", ...
 
 
 def rand_ids(rng):
@@ -349,12 +356,16 @@ def _build(sc, shim):
     raw = sc.get("early_raw", sc["early"])
     if isinstance(raw, dict):
         raw = np.bool_(raw["numpy_bool"])          # e.g. the result of a numpy comparison
-    net = Rec(early_departure=raw)
-    net._rec_init()
+    net = snmod.StochasticNetwork(early_departure=raw) if sc.get("json_net") else Rec(early_departure=raw)
     volts, rates = sc.get("voltages") or [], sc.get("rates") or []
-    for i, sid in enumerate(station_ids(sc)):
+    ids = station_ids(sc)
+    for i, sid in enumerate(ids):
         st_num[sid] = i + 1
         net.register_evse(EVSE(sid, max_rate=rates[i] if i < len(rates) else 32), volts[i] if i < len(volts) else 240, 0)
+    if sc.get("json_net"):
+        net = snmod.StochasticNetwork.from_json(net.to_json())
+        net.__class__ = Rec                          # the loaded object becomes the recorder
+    net._rec_init()
 
     def make_ev(x):
         name = sess_name(sc, x["k"])
@@ -366,7 +377,9 @@ def _build(sc, shim):
         if sc.get("est_dep"):
             est = x["departure"] + [-1, 0, 2][x["k"] % 3]
             est = max(est, x["arrival"] + 1)
-        return EV(a, d, x["energy"], "ST-00", name, Battery(100, 0, x["max_power"]), estimated_departure=est)
+        # the station the session asks for: a registered one (the stochastic network assigns its own)
+        wish = ids[x["k"] % len(ids)] if ids else "ST-00"
+        return EV(a, d, x["energy"], wish, name, Battery(100, 0, x["max_power"]), estimated_departure=est)
     evs = [make_ev(x) for x in sc["sessions"]]
     evs2 = [make_ev(x) for x in sc.get("second", [])]
     return net, evs, evs2
